@@ -616,8 +616,17 @@ func (o *c11Oracle) block() {
 		}
 
 		op := c11DecodeOp(t.Tx)
-		if op == nil || op.cur != "OLT" {
-			panic(core.HarnessError{Msg: fmt.Sprintf("C11: successful %s transaction #%d cannot be modelled (undecodable or currency not OLT)", typ, i)})
+		if op == nil {
+			panic(core.HarnessError{Msg: fmt.Sprintf("C11: successful %s transaction #%d cannot be modelled (undecodable)", typ, i)})
+		}
+		if op.cur != "OLT" {
+			// the stake records, the maturity queue and the withdrawable pool count whole OLT; an operation named
+			// in another currency that succeeds is booked 1:1 into them, so "withdrawn <= staked" compares amounts of
+			// different currencies from here on. Reported at once; the model cannot follow the run any further.
+			o.viol("stake-in-olt", "staking-op-in-foreign-currency", typ.String(),
+				"tx #%d %s of %s %s by delegator %s with validator %s succeeded: stake records count OLT, so an amount of another currency became (or released) the same number of OLT of stake", i, typ, op.x, op.cur, op.del, op.val)
+			o.blind = true
+			return
 		}
 		dg := o.deleg(op.del)
 		nue := new(big.Int).Mul(op.x, c11E18)
